@@ -108,6 +108,12 @@ func JSONExpr(r *Rng, depth int, wellTyped bool) string {
 			return Pick(r, []string{`{"left":"a","operator":"RANGE"}`, `{"left":"a","operator":"LIKE"}`, `{"left":"a","operator":"IN","right":5}`,
 				`{"left":5,"operator":"LIKE","right":"b*"}`, `{"left":"a","operator":"RANGE","right":{"min":null,"max":null}}`, `{"operator":"NOT"}`})
 		}
+		if r.Chance(1, 10) {
+			// a LEAF written in the verbose object form, holding a value of any JSON type (a decoder that unwraps such
+			// objects into real leaves can build WILD(5), REGEXP(true), LITERAL(null) …)
+			return fmt.Sprintf(`{"left":%s,"operator":"%s"}`, Pick(r, []string{"5", "1.5", "true", "null", `"b*"`, `"a"`, `"/r/"`, `[1,2]`, `{"min":1,"max":2}`, `""`, `-3`}),
+				Pick(r, []string{"WILD", "REGEXP", "LITERAL"}))
+		}
 		return JSONExpr(r, depth-1, wellTyped)
 	}
 	scalarList := func() string {
